@@ -114,20 +114,16 @@ def main():
             "* `keydec`, `keyrt`: COSE_Key decoder grid and key round trips. `factory`, `digest`, `ecdsa-*`: factories, digest entry points, ECDSA renderings. `conc`, `racestress`: gated schedule replay (GOMAXPROCS(1), callbacks as yield points) and ungated stress for `-race`. `nopanic`: all 9 decoding entry points and follow-ups under `recover()` and a deadline.",
             "* Fixtures: `/verif/fixtures/keys.json` (RSA 1024/2047/2048/3072; EC scalars per curve with full, 1- and 2-byte-short x / y and tiny d; Ed25519 seeds), verified at load.", ""]
     sec += ["### 13.4 Seeded changes and which check catches which", "",
-            "119 changes to go-cose that break a property while compiling and passing the repository's 809 tests, each written by a fresh sub-agent that saw only the property text and a scratch "
-            "worktree (round 1, suffix a/b: pinned tree, 3 re-based by hand onto the repaired tree, 1 dropped because the nil-bstr repair neutralised it; round 2, suffix c/d, and round 3, suffix e/f: "
-            "repaired tree, asked for subtler changes that a grid over inputs would not see: state kept between calls, values with their own encoders, first-call effects, pointer/value paths). "
+            "198 changes to go-cose that break a property while compiling and passing the repository's 809 tests, each written by a fresh sub-agent that saw only the property text and a scratch "
+            "worktree (round 1, suffix a/b: pinned tree, 3 re-based by hand onto the repaired tree, 1 dropped because the nil-bstr repair neutralised it; rounds 2-5, suffixes c/d, e/f, g/h, i/j: "
+            "repaired tree; from round 3 on the brief asked for subtler mechanisms - state kept between calls, values with their own encoders, first-call effects, pointer / value paths, aliasing, "
+            "error paths - and from round 3 / 5 on it listed the mechanisms already used for the property and asked for others; one round-4 candidate was dropped because the existing suite fails with it). "
             "Each was confirmed here (demo fails with the patch, passes without, suite passes with it: `tools/validate_mutants.sh`) and is kept as `seeded/<id>/{patch.diff, demo_test.go, meta.json}`. "
             "`tools/matrix_par.sh` applies each to a scratch worktree and runs the owning property's quick check (`VERIF_REPO`); `/repo` itself is never modified. "
-            "Missed by the owning check when first run: 3 of round 1, 12 of round 2, 14 of round 3 (8 of those 14 were caught by a sibling property's check). Every miss led to a strengthening of the "
-            "generator or judge of the owning property (git history of `/verif`). Round 1/2: size-class bases 23/24/255/256, countersignature lists of 1/3/4 and of distinct entries, `ClearedPrediction`, "
-            "signature renderings `lead`/`padhalves`/`midzero`, alg/curve cross pairings, memory-side Sig_structure check up to 65 536 bytes, output-buffer aliasing probe, empty non-nil signatures, CBOR "
-            "simple values, unreduced / negative public points, built-in signers in the race stress, verifier identity in C20, dirty-destination key decoding, zero-padded and double-length key coordinates. "
-            "Round 3: header maps with dozens of entries and nil maps (C01), non-minimal `body_protected` argument and hash envelopes on the wire side (C02), countersignature life-cycle model `CsModel` (C03, C10), "
-            "caller-supplied raw protected bytes without alg (C04), encode-edit-encode sequences and helper outputs (C08), nil / null / junk signature slots and non-canonical signer headers (C11), reserved hash id 0 "
-            "and verification *sessions* - the same cases again in one world with one verifier value, so that state kept between calls shows (C12), Go values with an encoding of their own such as "
-            "`cbor.RawMessage` (C13), shared values that have not been through any call before the threads start (C18). After these, every one of the 119 changes is reported by its owning property's quick check; "
-            "the table lists the reasons printed (first two), and sibling checks that were confirmed to report it as well.", "",
+            "Missed by the owning check when first run: 3 of 39 (round 1), 12 of 40 (round 2), 14 of 40 (round 3), 19 of 39 (round 4), 24 of 40 (round 5) - the later rounds were aimed at what the "
+            "earlier ones had shown the checks to cover. Every miss led to a strengthening of the generator, harness or judge of the owning property (git history of `/verif`; summarised in section 0 "
+            "and in the as-built notes of section 6); after each round every change of all rounds so far was reported by its owning property's quick check (one, C03-j, only in some runs: its effect "
+            "needs a particular interleaving inside one verifier; C18 reports it in every run). The table lists the reasons printed (first two) and sibling checks confirmed to report the change as well.", "",
             "| id | change | outcome of the owning property's quick check |", "|---|---|---|"]
     sec += matrix_rows()
     sec += ["", "---------------------------------------------------------------------------", "", ""]
